@@ -276,15 +276,17 @@ mod search {
                 *b = r.next() as u8;
             }
             let n = r.below(9) as usize;
-            let low_only = r.below(3) == 0; // ids that differ from the key only in the low-order 16 bytes
+            let mode = r.below(4);
+            let low_only = mode == 0; // ids that differ from the key only in the low-order 16 bytes
+            let near = mode == 1; // ids that share bytes 0..=14 with the key: top-half distances below the f64 resolution of the score
             let in_range = r.below(2) == 0; // trust restricted to [0,1]
             let mut table = Vec::new();
             let mut cands = Vec::new();
             for _ in 0..n {
                 let mut id = key;
-                let lo = if low_only { 16 } else { 0 };
+                let lo = if low_only { 16 } else if near { 15 } else { 0 };
                 for b in id[lo..].iter_mut() {
-                    if r.below(if low_only { 4 } else { 1 }) == 0 {
+                    if r.below(if low_only || near { 3 } else { 1 }) == 0 {
                         *b = r.next() as u8;
                     }
                 }
